@@ -178,8 +178,46 @@ def run(ck, F, E):
                                or sfx(c.callee, "Interpreter::get_state") or sfx(c.callee, "StatementEvaluator::evaluate_statement")
                                and not sfx(b.path, "StatementEvaluator::evaluate_if_statement")):
                 bad.append("%s -> %s" % (b.path, c.callee.split("::")[-1]))
+    # ... nor any call that leads to one: a helper that keeps evaluating `:`-separated statements of an ELSE clause in a loop runs
+    # them all inside the IF's single host call
+    for b in F.bodies.values():
+        if b.crate != "abasic_core" or "::analyzer::" in b.path or "::tests" in b.path or not b.natural_loops():
+            continue
+        lb = set().union(*b.natural_loops().values())
+        for c in b.calls():
+            if c.bb in lb and c.callee in F.bodies and c.callee != b.path:
+                reach = G.reachable([c.callee])
+                if any(sfx(p, "StatementEvaluator::evaluate_statement") for p in reach):
+                    bad.append("%s -> %s (in a loop)" % (b.path.split("::")[-1], c.callee.split("::")[-1]))
     ck.require(not bad, "C09:NOLOOP:core", "no run loop", "no loop in abasic-core drives the interpreter",
                "abasic-core now contains a loop that drives execution (%s): a host call no longer returns between statements" % bad)
+
+    # ---- (3a) the web adapter is a host-facing API too: one adapter call, one core step (a wrapper that batches up to N silent
+    # statements per call to save timer ticks lets the page break in only every N statements)
+    n_adapter = 0
+    batching = []
+    for p, b in sorted(F.bodies.items()):
+        if b.crate != "abasic_web" or "__wasm_bindgen_generated" in p:
+            continue
+        steps = [c for c in b.calls() if sfx(c.callee, "Interpreter::continue_evaluating") or sfx(c.callee, "Interpreter::start_evaluating")]
+        if not steps:
+            continue
+        n_adapter += 1
+        lb = set().union(*b.natural_loops().values()) if b.natural_loops() else set()
+        if any(c.bb in lb for c in steps):
+            batching.append("%s steps the core inside a loop" % p.split("::")[-1])
+        else:
+            try:
+                mx = max((sum(1 for x in path if b.call_at(x) in steps) for path in b.paths(limit=5000)), default=0)
+            except OverflowError:
+                mx = 2
+            if mx > 1:
+                batching.append("%s steps the core %d times on one path" % (p.split("::")[-1], mx))
+    ck.floor("C09.adapter methods that step the core", n_adapter, 2)
+    ck.require(not batching, "C09:ADAPTER:one-step-per-call", "one statement per call",
+               "each of the %d adapter methods steps the core at most once per call" % n_adapter,
+               "the web adapter executes several core steps per host call (%s): the page gets control back only every so many "
+               "statements" % "; ".join(batching))
 
     # ---- (3b) the work of one call is bounded by the current line: nothing reachable from the stepper moves to another line
     # inside a loop (a FOR that walks forward to its NEXT over however many lines lie between does the work of the whole body
